@@ -42,6 +42,8 @@ func checkC05(c *Ctx) {
 	c.Expect("C05-R11", 1)
 	c.Rule("C05-R12", "input a parser removes with the answer 'complete' becomes an event: every path to a complete-return appends to the event list, except for input the decoder could not decode (U+FFFD that does not compare equal to the charset's own encoding of U+FFFD)")
 	c.Expect("C05-R12", 6)
+	c.Rule("C05-R17", "When() lies between the arrival of the cause and the delivery: an event's time is time.Now() taken in the function that makes it; nothing re-dates an event afterwards (a stamp carried over from an earlier read precedes the arrival of the input it is put on)")
+	c.Expect("C05-R17", 1)
 	c.Rule("C05-R13", "StopQ hands out the channel that only Fini closes (pollers, PostEventWait and ChannelEvents end on it): nothing reachable from Suspend closes that field, Fini's path does")
 	c.Expect("C05-R13", 3)
 	c.Rule("C05-R14", "every delivered event is a complete Event: what a parser appends to the event list is the result of a constructor (or of a module function all of whose returns are), never a pointer that may be nil inside a non-nil interface")
@@ -89,6 +91,7 @@ func checkC05(c *Ctx) {
 		checkStopQIsQuit(c, p, "C05-R13", "tScreen")
 		checkAppendedEventsConstructed(c, p, "C05-R14")
 		checkPollReturnsWhatItReceives(c, p, "C05-R15")
+		checkEventTimeFromConstructor(c, p, "C05-R17")
 		c.asRule("C02-R9", "C05-R16", func() {
 			for _, pi := range inputParsers(p) {
 				c02Consumption(c, p, pi)
